@@ -132,6 +132,48 @@ def run(tier, seed):
     if not observed[name]['seed_used']:
       viol('%s: a different seed does not change the suggestions (the seed argument is not used)' % name, {'designer': name})
 
+  # ---- the GP designers fit their hyper-parameters with sequential restarts under a wall-clock budget.  Same seed, same loss,
+  # same starting points: the fitted optimum must not depend on whether one restart takes a millisecond or two minutes (the
+  # designers themselves cannot run in this sandbox; the optimiser object they use by default can)
+  try:
+    import jax as _jax
+    from jax import numpy as _jnp
+    import numpy as _np
+    from vizier._src.algorithms.designers import gp_ucb_pe as _gpu
+    from vizier._src.jax.optimizers import jaxopt_wrappers as _jw
+
+    class _Clock:
+      def __init__(self, step):
+        self.now, self.step = 1.7e9, step
+
+      def time(self):
+        self.now += self.step
+        return self.now
+
+    def _loss(params):
+      a = params['a'][0]
+      return (a * a - 1.0) ** 2 + 0.3 * a, dict()     # two wells; the better one (a = -1) is only reached by the last start
+
+    def _fit(step, starts):
+      real = _jw.time
+      _jw.time = _Clock(step)
+      try:
+        best, metrics = _gpu.default_ard_optimizer()(init_params={'a': _jnp.array([[x] for x in starts])}, loss_fn=_loss,
+                                                     rng=_jax.random.PRNGKey(0), best_n=1)
+        return float(_np.asarray(best['a']).ravel()[0]), int(_np.asarray(metrics['loss']).shape[-1])
+      finally:
+        _jw.time = real
+    for starts in ([0.8, 0.9, 1.1, 0.7, -0.8], [1.2, 0.6, -0.7, 0.9, 1.0]):
+      fast, slow = _fit(0.001, starts), _fit(120.0, starts)
+      rep.case({'ard_restarts_under_clock': starts, 'fast': fast, 'slow': slow}, True)
+      rep.count('ard_clock_independence')
+      if abs(fast[0] - slow[0]) > 1e-6 or fast[1] != slow[1]:
+        viol('GP_UCB_PE hyper-parameter fit (default ARD optimiser): same seed, loss and starting points give another optimum when one '
+             'restart takes two minutes instead of a millisecond (restarts are dropped by the wall-clock budget)',
+             {'starting_points': starts, 'fast_clock': {'optimum': fast[0], 'restarts': fast[1]}, 'slow_clock': {'optimum': slow[0], 'restarts': slow[1]}})
+  except ImportError as e:
+    rep.count('ard_clock_stage_unavailable_%s' % type(e).__name__)
+
   # ---- agreement of the stream table with what was observed
   idx = {'random': 0, 'quasi_random': 1, 'grid': 2, 'eagle': 3, 'nsga2': 4, 'cmaes': 7}
   cases = ['(%s, %s, %s, %s)' % (gnat(idx[n]), gbool(observed[n]['repro']), gbool(observed[n]['seed_used']), gbool(observed[n]['restore_repro']))
